@@ -7,6 +7,7 @@ in every constrained feature, categorical orderings, output bounds.
 C11 oracle (at every restore): the rebuilt model equals the durable image that
 a trivial in-memory reference model recorded at checkpoint time.
 """
+import collections.abc
 import json
 import os
 import random
@@ -42,6 +43,13 @@ def json_norm(o):
       return bool(x)
     if hasattr(x, "get_config"):
       return {"class_name": type(x).__name__, "config": x.get_config()}
+    if isinstance(x, (set, frozenset)):
+      return sorted(x, key=repr)
+    if isinstance(x, collections.abc.Mapping):
+      return dict(x)
+    if isinstance(x, collections.abc.Sequence) and not isinstance(
+        x, (str, bytes)):
+      return list(x)  # Keras ListWrapper and friends
     return repr(x)
 
   return _strip(json.loads(json.dumps(o, default=default, sort_keys=True)))
@@ -102,6 +110,7 @@ class ModelWorld(engine.World):
     builder = s.weighted(cands)
     spec = builder.gen(s.sub("spec"), tier)
     p = rng_lib.Stream(run_seed, "model-profile")
+    p_rebuild = 0.3
     if prop == "C03":
       n_events = p.integer(3, 22 if tier == "thorough" else 14)
       kinds = [("step", 10.0)]
@@ -123,6 +132,14 @@ class ModelWorld(engine.World):
         fmts.remove("savedmodel")
         fmts = fmts or ["keras"]
       hard_p = p.choice([0.0, 0.0, 0.15, 0.3])
+      if builders.seed_derived(spec):
+        # Structure recomputed from a seed: the interesting restart is a new
+        # process (other hash salt, other RNG state) re-running the user's
+        # model-building code and loading saved weights.
+        hard_p = p.choice([0.3, 0.6])
+        p_rebuild = 0.7
+        if not any(f.startswith("weights") for f in fmts):
+          fmts.append(p.choice(["weights_h5", "weights_tf", "weights_v3"]))
     fam_mode = p.weighted([("new", 3), ("legacy", 2), ("both", 4)])
     fams = {"new": ["new"], "legacy": ["legacy"], "both": ["new", "legacy"]}[
         fam_mode]
@@ -165,6 +182,7 @@ class ModelWorld(engine.World):
         ev["fmt"] = es.choice(fmts)
       elif kind == "crash":
         ev["mode"] = "hard" if es.chance(hard_p) else "soft"
+        ev["rebuild"] = es.chance(p_rebuild)
         ev["skew"] = es.chance(0.7)
         ev["lose_newest"] = es.chance(0.2)
       events.append(ev)
@@ -570,6 +588,44 @@ class ModelWorld(engine.World):
         break
     return ok, why
 
+  def _layer_configs(self, model):
+    """(class name, JSON-normalised config) of every tfl layer, in order."""
+    out = []
+    for layer in model._flatten_layers(include_self=False, recursive=True):  # pylint: disable=protected-access
+      if type(layer).__module__.startswith("tensorflow_lattice"):
+        cfg = json_norm(layer.get_config())
+        cfg.pop("name", None)
+        out.append([type(layer).__name__, cfg])
+    return out
+
+  def _layer_attrs(self, model):
+    """Constructor-argument attributes of every tfl layer (the rebuilt object
+    must have been configured like the original)."""
+    import inspect
+    out = []
+    for layer in model._flatten_layers(include_self=False, recursive=True):  # pylint: disable=protected-access
+      if not type(layer).__module__.startswith("tensorflow_lattice"):
+        continue
+      attrs = {}
+      try:
+        params = list(inspect.signature(type(layer).__init__).parameters)
+      except (TypeError, ValueError):
+        params = []
+      for name in params:
+        if name in ("self", "kwargs", "name", "dtype") or not hasattr(
+            layer, name):
+          continue
+        val = getattr(layer, name)
+        if val is None or isinstance(val, (bool, int, float, str, list, tuple,
+                                           np.ndarray)) or type(
+                                               val).__name__ == "ListWrapper":
+          try:
+            attrs[name] = json_norm(val)
+          except (TypeError, ValueError):
+            pass
+      out.append([type(layer).__name__, attrs])
+    return out
+
   def _var_meta(self, model):
     out = []
     for v in model.weights:
@@ -601,7 +657,10 @@ class ModelWorld(engine.World):
           "config": cfg,
           "weights": [np.array(w) for w in self.model.get_weights()],
           "var_meta": self._var_meta(self.model),
+          "layer_configs": self._layer_configs(self.model),
+          "layer_attrs": self._layer_attrs(self.model),
           "ref": self._ref_state(),
+          "spec": self.spec,
       }
       img["probe_x"] = self._probe_for_image(es.sub("probe"))
       with ctx.sut("call"):
@@ -635,14 +694,20 @@ class ModelWorld(engine.World):
     ctx.fire("checkpoint:" + fmt)
     ctx.token("ckpt:" + fmt)
 
-  def _load(self, img, ctx):
-    """Rebuilds a model from a durable image using only the tfl registry."""
+  def _load(self, img, ctx, rebuild=False):
+    """Rebuilds a model from a durable image using only the tfl registry, or
+    (rebuild=True, weight-only formats) by running the user's model-building
+    code again and loading the saved weights into it."""
     keras = self.keras
     co = self._custom_objects()
     fmt = img["fmt"]
     with ctx.sut("restore:" + fmt):
       if fmt in ("memory", "weights_h5", "weights_v3", "weights_tf"):
-        model = keras.models.model_from_json(img["json"], custom_objects=co)
+        if rebuild:
+          model = self.builder.build(self.spec)
+          ctx.fire("rebuild_from_user_code")
+        else:
+          model = keras.models.model_from_json(img["json"], custom_objects=co)
         if fmt == "memory":
           model.set_weights(img["weights"])
         else:
@@ -670,8 +735,11 @@ class ModelWorld(engine.World):
       return
     es = rng_lib.Stream(ev["seed"], "crash")
     hard_result = None
+    rebuild = bool(ev.get("rebuild")) and img["fmt"] in (
+        "memory", "weights_h5", "weights_v3", "weights_tf")
+    img["last_restore_rebuild"] = rebuild
     if ev["mode"] == "hard" and img["fmt"] != "memory":
-      hard_result = self._hard_restart(img, es, ctx)
+      hard_result = self._hard_restart(img, es, ctx, rebuild)
     # Soft restart: every live object is dropped, process-global state is
     # reset and skewed, then the model is rebuilt from the durable image.
     for v in self.tvars:
@@ -682,7 +750,7 @@ class ModelWorld(engine.World):
     self.keras.backend.clear_session()
     if ev.get("skew"):
       self._skew_globals(es.sub("skew"), ctx)
-    model = self._load(img, ctx)
+    model = self._load(img, ctx, rebuild)
     self.model = model
     self.compiled = bool(getattr(model, "optimizer", None) is not None and
                          img["fmt"] in ("full_h5", "keras", "savedmodel"))
@@ -732,7 +800,7 @@ class ModelWorld(engine.World):
       keras.layers.Dense(1)(tf.zeros([1, 1]))
     ctx.fire("global_state_skew")
 
-  def _hard_restart(self, img, es, ctx):
+  def _hard_restart(self, img, es, ctx, rebuild=False):
     """Loads the checkpoint in a fresh interpreter (real process restart)."""
     d = self._scratch()
     job = os.path.join(d, "job%d_%d.json" % (img["id"], ctx.micro))
@@ -741,7 +809,10 @@ class ModelWorld(engine.World):
     out = job.replace(".json", "_out.npz")
     with open(job, "w") as f:
       json.dump({"fmt": img["fmt"], "path": img["path"], "json": img["json"],
-                 "x": xs, "out": out, "repo": env.repo_root()}, f)
+                 "x": xs, "out": out, "repo": env.repo_root(),
+                 "rebuild": bool(rebuild), "spec": engine.jsonable(self.spec),
+                 "rng_seed": es.seed31()},
+                f)
     e = dict(os.environ)
     e["PYTHONHASHSEED"] = str(es.integer(1, 2**31 - 1))
     e["VERIF_REPO"] = env.repo_root()
@@ -1032,6 +1103,17 @@ class ModelWorld(engine.World):
     if diffs:
       out.append(engine.Violation("config_drift", {"diffs": diffs,
                                                    "fmt": img["fmt"]}))
+    with ctx.sut("get_config"):
+      lcfg = self._layer_configs(model)
+    ldiffs = config_diff(img["layer_configs"], lcfg)
+    if ldiffs:
+      out.append(engine.Violation("layer_config_drift", {
+          "diffs": ldiffs, "fmt": img["fmt"],
+          "rebuild": bool(img.get("last_restore_rebuild"))}))
+    adiffs = config_diff(img["layer_attrs"], self._layer_attrs(model))
+    if adiffs:
+      out.append(engine.Violation("layer_attr_drift", {
+          "diffs": adiffs, "fmt": img["fmt"]}))
     meta = self._var_meta(model)
     if meta != img["var_meta"]:
       bad = [(a, b) for a, b in zip(img["var_meta"], meta) if a != b][:4]
@@ -1066,6 +1148,10 @@ class ModelWorld(engine.World):
             {"fmt": img["fmt"], "text": hard.get("exc_text"),
              "tb": hard.get("tb")}))
       else:
+        hl = config_diff(img["layer_configs"], hard.get("layer_configs"))
+        if hl:
+          out.append(engine.Violation("layer_config_drift", {
+              "diffs": hl, "fmt": img["fmt"], "hard": True}))
         hd = config_diff(img["config"], hard["config"])
         if hd:
           out.append(engine.Violation("config_drift", {"diffs": hd,
@@ -1132,6 +1218,8 @@ class ModelWorld(engine.World):
           simpler.append(dict(ev, skew=False))
         if ev.get("lose_newest"):
           simpler.append(dict(ev, lose_newest=False))
+        if ev.get("rebuild"):
+          simpler.append(dict(ev, rebuild=False))
       elif ev["kind"] == "checkpoint":
         if ev["fmt"] != "memory":
           simpler.append(dict(ev, fmt="memory"))
